@@ -23,6 +23,10 @@ pub struct GenCfg {
     pub share_pct: u64,
     /// restrict symbol widths so that total symbol bits stay small (exhaustive evaluation)
     pub small: bool,
+    /// never create symbols: leaves are drawn from the pre-registered symbols (adapted in width) or literals
+    pub fixed_symbols: bool,
+    /// generate array equality nodes
+    pub array_eq: bool,
 }
 
 impl Default for GenCfg {
@@ -37,6 +41,8 @@ impl Default for GenCfg {
             max_data_width: 65,
             share_pct: 25,
             small: false,
+            fixed_symbols: false,
+            array_eq: true,
         }
     }
 }
@@ -121,6 +127,9 @@ impl<'a> ExprGen<'a> {
     }
 
     pub fn symbol(&mut self, ctx: &mut Context, w: u32) -> ExprRef {
+        if self.cfg.fixed_symbols {
+            return self.fixed_leaf(ctx, w);
+        }
         let n_per = if self.cfg.small { 2 } else { 3 };
         let prefix = self.sym_prefix.clone();
         let v = self.bv_syms.entry(w).or_default();
@@ -135,6 +144,15 @@ impl<'a> ExprGen<'a> {
     }
 
     pub fn array_symbol(&mut self, ctx: &mut Context, iw: u32, dw: u32) -> ExprRef {
+        if self.cfg.fixed_symbols {
+            if let Some(v) = self.arr_syms.get(&(iw, dw)) {
+                if !v.is_empty() {
+                    return *self.rng.pick(v);
+                }
+            }
+            let d = self.fixed_leaf(ctx, dw);
+            return ctx.array_const(d, iw);
+        }
         let prefix = self.sym_prefix.clone();
         let v = self.arr_syms.entry((iw, dw)).or_default();
         if v.len() < 2 && (v.is_empty() || self.rng.chance(1, 2)) {
@@ -153,7 +171,60 @@ impl<'a> ExprGen<'a> {
     }
 
     fn leaf(&mut self, ctx: &mut Context, w: u32) -> ExprRef {
+        if self.cfg.fixed_symbols {
+            return self.fixed_leaf(ctx, w);
+        }
         if self.rng.chance(2, 5) { self.literal(ctx, w) } else { self.symbol(ctx, w) }
+    }
+
+    pub fn register_symbol(&mut self, ctx: &Context, s: ExprRef) {
+        match s_type(ctx, s) {
+            Type::BV(w) => self.bv_syms.entry(w).or_default().push(s),
+            Type::Array(a) => self.arr_syms.entry((a.index_width, a.data_width)).or_default().push(s),
+        }
+    }
+
+    pub fn clear_symbols(&mut self) {
+        self.bv_syms.clear();
+        self.arr_syms.clear();
+        self.pool.clear();
+    }
+
+    fn fixed_leaf(&mut self, ctx: &mut Context, w: u32) -> ExprRef {
+        let all: Vec<(u32, ExprRef)> = self.bv_syms.iter().flat_map(|(w, v)| v.iter().map(move |s| (*w, *s))).collect();
+        if all.is_empty() || self.rng.chance(1, 4) {
+            // array reads are another way to reach a symbol
+            if !self.arr_syms.is_empty() && self.rng.chance(1, 3) {
+                let keys: Vec<(u32, u32)> = self.arr_syms.keys().copied().collect();
+                let (iw, dw) = *self.rng.pick(&keys);
+                let a = *self.rng.pick(&self.arr_syms[&(iw, dw)]);
+                let idx = if all.is_empty() { self.literal(ctx, iw) } else { self.fixed_leaf(ctx, iw) };
+                let r = ctx.array_read(a, idx);
+                return self.adapt(ctx, r, dw, w);
+            }
+            return self.literal(ctx, w);
+        }
+        // prefer an exact width match
+        let exact: Vec<ExprRef> = all.iter().filter(|x| x.0 == w).map(|x| x.1).collect();
+        if !exact.is_empty() && self.rng.chance(3, 4) {
+            return *self.rng.pick(&exact);
+        }
+        let (ws, s) = *self.rng.pick(&all);
+        self.adapt(ctx, s, ws, w)
+    }
+
+    /// change the width of `e` from `from` to `to` bits by slicing or extending
+    fn adapt(&mut self, ctx: &mut Context, e: ExprRef, from: u32, to: u32) -> ExprRef {
+        if from == to {
+            e
+        } else if from > to {
+            let lo = self.rng.below((from - to) as u64 + 1) as u32;
+            ctx.slice(e, lo + to - 1, lo)
+        } else if self.rng.flip() {
+            ctx.zero_extend(e, to - from)
+        } else {
+            ctx.sign_extend(e, to - from)
+        }
     }
 
     fn remember(&mut self, w: u32, e: ExprRef) -> ExprRef {
@@ -306,7 +377,7 @@ impl<'a> ExprGen<'a> {
                     break ctx.implies(x, y);
                 }
                 _ => {
-                    if !self.cfg.arrays {
+                    if !self.cfg.arrays || !self.cfg.array_eq {
                         continue;
                     }
                     let iw = self.rng.range(1, self.cfg.max_index_width.min(3) as u64) as u32;
